@@ -51,6 +51,18 @@ def gen(rng, tier):
         M = [[Fraction(rng.randint(0, 9), 1) for _ in range(len(present))] for _ in present]
         yield {'trajs': trajs, 'lag': lag, 'S': [present[0]], 'F': [present[-1]], 'dtype': fits[0] if rng.random() < 0.6 else rng.choice(fits),
                'other': other, 'M': [[str(x) for x in r] for r in M], 'alpha': akind, 'big': False}
+    for _ in range(3 if tier == 'quick' else 40):
+        # 32..200 trajectories (thread-parallel paths over trajectories); sometimes one of them has no core
+        labs, akind = G.alphabet(rng, k=rng.randint(2, 3))
+        nt = rng.choice([32, 33, 40, 64, 100, 200])
+        trajs = [G.traj(rng, labs, rng.randint(8, 30), sticky=0.85) for _ in range(nt)]
+        if rng.random() < 0.6:        # a trajectory that alternates: no window of 3 equal frames
+            k = rng.randrange(nt)
+            trajs[k] = [labs[i % 2] for i in range(rng.randint(4, 12))]
+        present = sorted({v for t in trajs for v in t})
+        N = sum(len(t) for t in trajs)
+        yield {'trajs': trajs, 'lag': 3, 'S': [present[0]], 'F': [present[-1]], 'dtype': 'int64',
+               'other': [rng.choice(present) for _ in range(N)], 'M': [['1', '2'], ['3', '4']], 'alpha': akind + '+many-trajs', 'big': True}
     # one labeling pair with far more than 65535 frames of a single (state1, state2) pair
     N = 150001
     a = [0] * 100000 + [1] * 30000 + [2] * 20001
@@ -104,6 +116,11 @@ def impl(case):
     out['rownorm_int'] = _guard(lambda: [_f(v) for v in mh.msm.row_normalize_matrix(M.astype(np.int64)).flatten()])
     out['mpow'] = _guard(lambda: [_f(v) for v in mh.utils.matrix_power(mh.msm.row_normalize_matrix(M), 5).flatten()])
     out['find_first'] = _guard(lambda: [int(mh.utils.find_first(v, np.array(case['trajs'][0], dtype=dt))) for v in case['S'] + case['F'] + [987654]])
+    # search values outside the range of a narrow array type, and non-integral ones
+    narrow = np.array([abs(int(v)) % 100 for v in case['trajs'][0]], dtype=np.int8)
+    for tag, sv in (('ff_300', 300), ('ff_neg_u8', -1), ('ff_half', 2.5), ('ff_big', 2**40)):
+        arr = narrow.astype(np.uint8) if tag == 'ff_neg_u8' else narrow
+        out[tag] = _guard(lambda sv=sv, arr=arr: int(mh.utils.find_first(sv, arr)))
     if not case['big']:
         present = sorted({v for t in case['trajs'] for v in t})
         f = {v: 100 + (i * 2) // max(1, len(present)) for i, v in enumerate(present)}
